@@ -134,7 +134,8 @@ class Geometric(DiscreteRandomVariable):
         if self.p == 1:
             return 1
         # The number of trials is at least 1 (unit() may return exactly 0).
-        return max(1, math.ceil(math.log(1-unit())/math.log(1-self.p)))
+        # log1p keeps log(1-p) away from 0 when p is below 2**-53.
+        return max(1, math.ceil(math.log1p(-unit())/math.log1p(-self.p)))
 
     def __str__(self):
         return f"Geometric(p={self.p})"
